@@ -90,6 +90,7 @@ type executor struct {
 	venv *venv
 	mapOrder int
 	replaced map[string]bool
+	replOn   map[string]bool
 	evlog []outRec // environment events (stdout writes, file writes...) in order
 }
 
